@@ -7,7 +7,7 @@ EXTRA_CONFIGS = ('default', 'tokio1', 'serde1', 'serde-transport')   # feature c
 META = {
     'level': 'other',
     'technique': 'static comparison-fact and edge-guard rules over MIR of MaxChannelsPerKey; type-level ownership query (Arc in channel, Weak in map); Drop provenance',
-    'text': 'Decides: a tracker (capacity token) is handed out only on the Vacant edge of the key lookup or under the fact strong_count < channels_per_key read from that key\'s own entry; '
+    'text': 'Decides: the per-key table is indexed by the key type itself and consulted with the key function\'s result unchanged (different keys never share a count); a tracker (capacity token) is handed out only on the Vacant edge of the key lookup or under the fact strong_count < channels_per_key read from that key\'s own entry; '
             'each yielded channel owns an Arc of its key\'s tracker while the map holds only a Weak, and the tracker\'s Drop reports its own key, so the strong count is the number of live '
             'channels of the key; a key\'s entry is forgotten on a close notification only under a dead-check of that very entry (defect D3, fixed: a stale notification could erase a live '
             'entry); the stream returns Pending only when both the listener and the notification queue returned Pending (both registered).',
